@@ -2,6 +2,7 @@ from propdefs.common import *
 
 PROP = {
     "bin": "c11",
+    "minimize": True,   # harness implements `--only i --keep p0,p1,..` (notes/minimisation.md)
     "coq_targets": ["theories/Graph/C11Check"],
     # built only in the thorough tier once vcheck supports the key (42 min of vm_compute when not cached): all digraphs on 4 vertices
     "coq_targets_thorough": ["theories/Graph/SemiNca4"],
